@@ -20,7 +20,13 @@
    the transaction id: tid mod 8 = 0..3 the correct response for the request (it echoes
    transaction id and unit id -- the handler's contract, a premise of C16), 4 / 7 an
    *ErrorParseTCP (bare / wrapped) with code (tid/8) mod 256, 5 a generic error, 6 a panic.
-   Mode 1 is a handler that always returns a packet with an empty Bytes(). *)
+   Mode 1 is a handler that always returns a packet with an empty Bytes().  Mode 2 is the handler
+   of mode 0 sleeping longer than the server's WriteTimeout before it returns (time is not part of
+   the model: same function).
+   A read in [read...] is its bytes, or [bytes; 1] when the scripted connection (client kind 3)
+   returned them together with os.ErrDeadlineExceeded; ([]; 1) is a scripted (0, deadline) read.
+   Client kinds: 0 lock-step, 1 back to back (net.Pipe), 2 everything buffered beforehand,
+   3 scripted reads with deadline errors and an enforced write deadline. *)
 Require Import MB.GoSem MB.Val MB.Entry MB.Spec MB.PacketModel MB.ServerModel MB.ServerSpec.
 From Coq Require Import String.
 Notation length := List.length (only parsing).
@@ -54,11 +60,21 @@ Definition script_handler (mode : N) (p : N * req) : handler_result :=
 Definition status_code (s : status) : Z :=
   match s with Open => 0 | Closed => 1 | Panicked => 2 | OutOfFuel => 3 end%Z.
 Definition is_nil {A} (l : list A) : bool := match l with [] => true | _ => false end.
-Definition chunks_of (v : val) : option (list (list N)) :=
+(* a read is either its bytes, or [bytes; flag] when the scripted connection returned them together
+   with os.ErrDeadlineExceeded (flag 1) -- ([]; 1) is a scripted (0, deadline) read *)
+Definition events_of (v : val) : option (list (list N * bool)) :=
   match v with
-  | VL vs => fold_right (fun x acc => match x, acc with VB b, Some l => Some (b :: l) | _, _ => None end) (Some []) vs
+  | VL vs => fold_right (fun x acc => match x, acc with
+                                      | VB b, Some l => Some ((b, false) :: l)
+                                      | VL [VB b; VI f], Some l => Some ((b, zbool f) :: l)
+                                      | _, _ => None end) (Some []) vs
   | _ => None
   end.
+Definition chunks_of (v : val) : option (list (list N)) :=
+  match events_of v with Some evs => Some (map fst evs) | None => None end.
+(* modes whose outcome the properties judge: 0 the scripted handler, 2 the same handler running
+   longer than the server's write timeout (time is not part of the model) *)
+Definition judged_mode (m : Z) : bool := Z.eqb m 0 || Z.eqb m 2.
 
 (* states after each call until the first one that is not Open any more (the harness stops there) *)
 Fixpoint until_end (cs : list conn) : list conn :=
@@ -103,8 +119,13 @@ Definition last_status (cs : list conn) : status :=
   match rev cs with c :: _ => c_status c | [] => Open end.
 
 (* the observable part of one connection: reads are never empty here *)
-Definition proj_conn (mode : N) (reads : list (list N)) : list val :=
-  let states := until_end (conn_trace (script_handler mode) conn_init reads) in
+Fixpoint conn_trace_ev (h : N * req -> handler_result) (c : conn) (evs : list (list N * bool)) : list conn :=
+  match evs with
+  | [] => []
+  | ev :: rest => let c' := conn_read_ev h c ev in c' :: conn_trace_ev h c' rest
+  end.
+Definition proj_conn (mode : N) (reads : list (list N * bool)) : list val :=
+  let states := until_end (conn_trace_ev (script_handler mode) conn_init reads) in
   (* a read after the connection ended cannot have been observed: such a case is malformed *)
   if negb (length states =? length reads)%nat then [VI 97%Z] else
   [VL (map (fun c => VB (c_written c)) states);
@@ -114,7 +135,7 @@ Definition proj_conn (mode : N) (reads : list (list N)) : list val :=
 Definition run_conn (a : list val) : val :=
   match a with
   | [VI mode; VI _; rv; VB stream] =>
-      match chunks_of rv with
+      match events_of rv with
       | Some reads => VL (proj_conn (zN mode) reads ++ [proj_whole (zN mode) stream])
       | None => v_bad
       end
@@ -124,7 +145,7 @@ Definition run_conn (a : list val) : val :=
 Definition run_two (a : list val) : val :=
   match a with
   | [VI mode; ra; VB _; rb; VB _] =>
-      match chunks_of ra, chunks_of rb with
+      match events_of ra, events_of rb with
       | Some readsA, Some readsB =>
           VL [VL (proj_conn (zN mode) readsA); VL (proj_conn (zN mode) readsB); VI 1%Z]
       | _, _ => v_bad
@@ -195,7 +216,8 @@ Definition check_C15 (chunks : list (list N)) (steps : list (list N * Z)) (wb : 
 
 Definition verdict_asm_C15 (a : list val) (out : val) : N :=
   match a, out with
-  | [VI 0%Z; cv], VL [sv; wv] =>
+  | [VI m; cv], VL [sv; wv] =>
+      if negb (judged_mode m) then NOT_JUDGED else
       match chunks_of cv, steps_of sv, whole_of wv with
       | Some chunks, Some steps, Some (wb, wst) => check_C15 chunks steps wb wst
       | _, _, _ => VIOLATES
@@ -215,12 +237,12 @@ Definition closed_code (st : Z) : Z := if Z.eqb st 0 then 0%Z else 1%Z.
 
 Definition verdict_conn_C15 (a : list val) (out : val) : N :=
   match a, out with
-  | [VI 0%Z; VI _; rv; VB stream], VL [cums; VI st; VI _; wv] =>
+  | [VI m; VI _; rv; VB stream], VL [cums; VI st; VI _; wv] =>
+      if negb (judged_mode m) then NOT_JUDGED else
       match chunks_of rv, conn_steps cums (closed_code st), whole_of wv with
       | Some reads, Some steps, Some (wb, wst) =>
           (* the server must have read the whole stream unless it closed the connection *)
           if Z.eqb st 0 && negb (list_eqb (concat reads) stream) then VIOLATES else
-          if existsb is_nil reads then VIOLATES else
           check_C15 reads steps wb wst
       | _, _, _ => VIOLATES
       end
@@ -297,7 +319,8 @@ Definition last_cum (steps : list (list N * Z)) : list N * Z :=
 
 Definition verdict_asm_C16 (a : list val) (out : val) : N :=
   match a, out with
-  | [VI 0%Z; cv], VL [sv; _] =>
+  | [VI m; cv], VL [sv; _] =>
+      if negb (judged_mode m) then NOT_JUDGED else
       match chunks_of cv, steps_of sv with
       | Some chunks, Some steps =>
           let (final, st) := last_cum steps in
@@ -316,7 +339,8 @@ Definition judge_conn_C16 (rv cums : val) (st : Z) : N :=
   end.
 Definition verdict_conn_C16 (a : list val) (out : val) : N :=
   match a, out with
-  | [VI 0%Z; VI _; rv; VB _], VL [cums; VI st; VI _; _] => judge_conn_C16 rv cums st
+  | [VI m; VI _; rv; VB _], VL [cums; VI st; VI _; _] =>
+      if negb (judged_mode m) then NOT_JUDGED else judge_conn_C16 rv cums st
   | _, _ => NOT_JUDGED
   end.
 (* two connections of one server: each judged as if it were alone, and the server must still
@@ -328,7 +352,8 @@ Definition worst (x y : N) : N :=
   if (x =? NOT_JUDGED) || (y =? NOT_JUDGED) then NOT_JUDGED else HOLDS.
 Definition verdict_two_C16 (a : list val) (out : val) : N :=
   match a, out with
-  | [VI 0%Z; ra; VB sa; rb; VB sb], VL [VL [ca; VI sta; VI _]; VL [cb; VI stb; VI _]; VI alive] =>
+  | [VI m; ra; VB sa; rb; VB sb], VL [VL [ca; VI sta; VI _]; VL [cb; VI stb; VI _]; VI alive] =>
+      if negb (judged_mode m) then NOT_JUDGED else
       if negb (Z.eqb alive 1) then VIOLATES else
       worst (judge_conn_C16 ra ca sta) (judge_conn_C16 rb cb stb)
   | _, _ => VIOLATES
